@@ -18,6 +18,7 @@ use std::pin::Pin;
 type Dev = Qcow2Dev<SimFile>;
 
 static OUT: std::sync::Mutex<String> = std::sync::Mutex::new(String::new());
+static PLOC: std::sync::Mutex<String> = std::sync::Mutex::new(String::new());
 static TICK: std::sync::Mutex<Option<(String, usize, std::time::Instant)>> = std::sync::Mutex::new(None);
 
 macro_rules! outln {
@@ -298,7 +299,8 @@ fn guard<T, F: FnOnce() -> T>(f: F) -> Result<T, String> {
             } else {
                 "?".to_string()
             };
-            Err(sanitize(&msg))
+            let loc = PLOC.lock().unwrap().clone();
+            Err(format!("{}_at_{}", sanitize(&msg), sanitize(&loc)))
         }
     }
 }
@@ -359,7 +361,11 @@ struct Case {
 }
 
 fn main() {
-    std::panic::set_hook(Box::new(|_| {}));
+    std::panic::set_hook(Box::new(|info| {
+        if let Some(l) = info.location() {
+            *PLOC.lock().unwrap() = format!("{}:{}", l.file().rsplit('/').next().unwrap_or(""), l.line());
+        }
+    }));
     let args: Vec<String> = std::env::args().collect();
     if args[1] == "codec" {
         codec::run(&args[2]);
